@@ -367,18 +367,18 @@ func roundTripDocument(out *Out, rng *Rng, idx int, obs map[string]int) {
 	}
 	sec1, h1, state1, err := exportSections(c.App)
 	if err != nil {
-		out.Emit(fmt.Sprintf("chk docEq tag=import.export-failed | ok %s", sanitize(err.Error())), "true", "export-error", false)
+		out.Emit(fmt.Sprintf("chk docEq/import.export-failed tag=import.export-failed | ok %s", sanitize(err.Error())), "true", "export-error", false)
 		return
 	}
 	emitSections(out, cdc, "import", sec, sec1, h0, true)
 	d, perr := importApp(fmt.Sprintf("doc-%d-b", idx), state1, h1, 1700000000, bl)
 	if perr != "" {
-		out.Emit(fmt.Sprintf("chk docEq tag=reexport.import-panicked | ok %s", sanitize(perr)), "true", "import-panic", false)
+		out.Emit(fmt.Sprintf("chk docEq/reexport.import-panicked tag=reexport.import-panicked | ok %s", sanitize(perr)), "true", "import-panic", false)
 		return
 	}
 	sec2, _, _, err := exportSections(d.App)
 	if err != nil {
-		out.Emit(fmt.Sprintf("chk docEq tag=reexport.export-failed | ok %s", sanitize(err.Error())), "true", "export-error", false)
+		out.Emit(fmt.Sprintf("chk docEq/reexport.export-failed tag=reexport.export-failed | ok %s", sanitize(err.Error())), "true", "export-error", false)
 		return
 	}
 	emitSections(out, cdc, "reexport", sec1, sec2, h1, false)
